@@ -398,12 +398,21 @@ func vfBubbleGoroutines() []string {
 		top := ""
 		for _, l := range lines[1:] {
 			if strings.HasPrefix(l, "github.com/pkg/sftp.") {
-				top = strings.TrimPrefix(l, "github.com/pkg/sftp.")
-				if j := strings.LastIndex(top, "("); j > 0 {
-					top = top[:j]
+				f := strings.TrimPrefix(l, "github.com/pkg/sftp.")
+				if j := strings.LastIndex(f, "("); j > 0 {
+					f = f[:j]
 				}
+				// harness frames (vf*, (*vf...), TestVF) do not count
+				g := strings.TrimLeft(f, "(*")
+				if strings.HasPrefix(g, "vf") || strings.HasPrefix(g, "TestVF") || strings.HasPrefix(g, "sf") || strings.HasPrefix(g, "c0") || strings.HasPrefix(g, "c1") || strings.HasPrefix(g, "c2") {
+					continue
+				}
+				top = f
 				break
 			}
+		}
+		if top == "" {
+			continue // no package code on this stack
 		}
 		hdr := lines[0]
 		if j := strings.Index(hdr, "["); j >= 0 {
